@@ -157,6 +157,7 @@ var domains = map[fieldID][]fval{
 		strv(strategyPrefix + "/multicast/v=1"),
 		strv(strategyPrefix + "/multicast/v=9"),
 		strv(strategyPrefix + "/multicast/v1"),
+		strv(strategyPrefix + "/multicast/v=1/extra"),
 		strv(strategyPrefix + "/nonexistent"),
 		strv(strategyPrefix),
 		strv("/localhost/nfd"),
